@@ -699,6 +699,7 @@ var checkMsgRe = []struct {
 }{
 	{regexp.MustCompile(`^can't use keyword ".*" as native function name$`), "keyword"},
 	{regexp.MustCompile(`^native function ".*" is not a function$`), "notfunc"},
+	{regexp.MustCompile(`^native function ".*" is nil$`), "nilfunc"},
 	{regexp.MustCompile(`^native function ".*" param (\d+) is not int or string$`), "param"},
 	{regexp.MustCompile(`^native function ".*" return value is not int or string$`), "ret"},
 	{regexp.MustCompile(`^native function ".*" first return value is not int or string$`), "ret1"},
@@ -1041,7 +1042,7 @@ func runC17(c *vh.Ctx) {
 			kw = kw || k == name
 		}
 		shapes = append(shapes, &shapeCase{Name: name, Desc: ft.String(), FVal: "func " + nf + " " + encSig(ft), Called: called, val: val,
-			valid: documentedShape(ft) && !kw})
+			valid: documentedShape(ft) && !kw && !nilf})
 	}
 	intT := reflect.TypeOf(0)
 	// invalid type in each position: parameter 0..2, variadic element, sole result, first of two results, second result, three results
@@ -1115,7 +1116,7 @@ func runC17(c *vh.Ctx) {
 			shapes = append(shapes, &shapeCase{Name: "f", Desc: fmt.Sprintf("%T", nv.v), FVal: "other " + nv.kind, Called: called, val: nv.v})
 		}
 	}
-	// G17-1 / G17-2 witnesses
+	// G17-1 / G17-2 witnesses (repaired: must be rejected with an error at set-up, called or not)
 	for _, called := range []bool{false, true} {
 		shapes = append(shapes, &shapeCase{Name: "f", Desc: "untyped nil", FVal: "nil", Called: called, val: nil})
 	}
@@ -1134,24 +1135,16 @@ func runC17(c *vh.Ctx) {
 		} else {
 			c.Hit("shape:invalid")
 		}
-		nilFunc := strings.HasPrefix(sc.FVal, "func 1 ")
-		untypedNil := sc.FVal == "nil"
+		// G17-1 / G17-2 are repaired: a nil value (typed or not) is an invalid shape like any other and must be rejected at set-up
 		fail := func(what, got, want string) {
-			finding := ""
-			if untypedNil && strings.Contains(got, "nil pointer dereference") && what == "ExecProgram panicked" {
-				finding = "G17-1"
-			}
-			if nilFunc && sc.Called && strings.Contains(got, "call of nil function") && what == "ExecProgram panicked" {
-				finding = "G17-2"
-			}
-			c.Fail(vh.Failure{Kind: "oracle", What: what, Finding: finding, Case: sc, Got: got, Want: want})
+			c.Fail(vh.Failure{Kind: "oracle", What: what, Case: sc, Got: got, Want: want})
 		}
 		switch {
 		case o.parsePanic != "":
 			fail("ParseProgram panicked", o.parsePanic, "no panic")
 		case o.execPanic != "":
 			fail("ExecProgram panicked", o.execPanic, "an error (or success) from ExecProgram")
-		case sc.valid && !nilFunc:
+		case sc.valid:
 			if o.parseErr != "" || o.execErr != "" || o.out != "ran\n" {
 				fail("a function of documented shape was rejected", o.parseErr+"|"+o.execErr+"|"+o.out, "accepted")
 			}
@@ -1173,10 +1166,6 @@ func runC17(c *vh.Ctx) {
 				real = "panic"
 			} else if o.execErr != "" {
 				real = "err " + classifyCheckErr(o.execErr)
-			}
-			// a nil function is accepted by the model's checkNativeFunc too; the call-time panic is callNative's (covered above)
-			if strings.HasPrefix(shapes[i].FVal, "func 1 ") && shapes[i].Called && real == "panic" {
-				real = "ok"
 			}
 			c.Trace()
 			if real != a {
@@ -1205,7 +1194,7 @@ func runC17(c *vh.Ctx) {
 			}
 		}
 	}
-	// nil function called: model says callNative panics
+	// a nil function can no longer reach callNative; the model keeps saying that it would panic there (nil_func_would_panic)
 	if c.HasLean() {
 		a := c.Lean("call 1 0 P Int R Int A 0000000000000000:f:- B i0 nil")
 		c.Trace()
